@@ -23,7 +23,7 @@ func (x *FnCtx) step(fr *Frame, st *State, instr ssa.Instruction) {
 			r := x.alloc(st.heap, tb.IntC(layoutOf(et).Size))
 			x.zeroStruct(st.heap, r, et)
 			x.zeroGhostFields(st, r)
-			fr.regs[in] = r
+			x.setReg(st, in, r)
 		case *types.Array:
 			n := int64(1)
 			if isStruct(u.Elem()) {
@@ -39,9 +39,9 @@ func (x *FnCtx) step(fr *Frame, st *State, instr ssa.Instruction) {
 				m := x.heapGet(st.heap, name, x.contentsSort(u.Elem()))
 				st.heap.m[name] = tb.Store(m, r, x.zeroValue(et).(*Term))
 			}
-			fr.regs[in] = r
+			x.setReg(st, in, r)
 		default:
-			fr.regs[in] = LocV{Kind: LCell, Cell: in, Frame: fr, T: et}
+			x.setReg(st, in, LocV{Kind: LCell, Cell: in, Frame: fr, T: et})
 			st.cells[in] = x.zeroOrUnknown(et)
 		}
 	case *ssa.Store:
@@ -53,42 +53,42 @@ func (x *FnCtx) step(fr *Frame, st *State, instr ssa.Instruction) {
 			if t, ok := p.(*Term); ok && x.needsNilCheck(in.X) {
 				x.safetyOb("nil", fr.prefix+fr.siteOrd[in], st, tb.Ne(t, tb.IntC(0)))
 			}
-			fr.regs[in] = x.load(fr, st, p, in.X.Type())
+			x.setReg(st, in, x.load(fr, st, p, in.X.Type()))
 		case token.ARROW:
 			x.abstracted("channel receive")
-			fr.regs[in] = x.freshOf("unk_recv", in.Type())
+			x.setReg(st, in, x.freshOf("unk_recv", in.Type()))
 		default:
-			fr.regs[in] = x.unop(in.Op, x.term(fr, st, in.X), in.X.Type(), fr.prefix+fr.siteOrd[in], st)
+			x.setReg(st, in, x.unop(in.Op, x.term(fr, st, in.X), in.X.Type(), fr.prefix+fr.siteOrd[in], st))
 		}
 	case *ssa.BinOp:
 		xt := in.X.Type()
 		if isStruct(xt) {
-			fr.regs[in] = x.structEq(fr, st, in)
+			x.setReg(st, in, x.structEq(fr, st, in))
 			return
 		}
 		if _, ok := xt.Underlying().(*types.Array); ok && (in.Op == token.EQL || in.Op == token.NEQ) {
 			x.abstracted("array comparison")
-			fr.regs[in] = x.freshOf("unk_arrcmp", in.Type())
+			x.setReg(st, in, x.freshOf("unk_arrcmp", in.Type()))
 			return
 		}
 		a, b := x.term(fr, st, in.X), x.term(fr, st, in.Y)
-		fr.regs[in] = x.binop(in.Op, a, b, xt, in.Y.Type(), fr.prefix+fr.siteOrd[in], st)
+		x.setReg(st, in, x.binop(in.Op, a, b, xt, in.Y.Type(), fr.prefix+fr.siteOrd[in], st))
 	case *ssa.Convert:
-		fr.regs[in] = x.convertValue(fr, st, in)
+		x.setReg(st, in, x.convertValue(fr, st, in))
 	case *ssa.ChangeType:
-		fr.regs[in] = x.val(fr, st, in.X)
+		x.setReg(st, in, x.val(fr, st, in.X))
 	case *ssa.ChangeInterface:
-		fr.regs[in] = x.val(fr, st, in.X)
+		x.setReg(st, in, x.val(fr, st, in.X))
 	case *ssa.MakeInterface:
-		fr.regs[in] = x.makeInterface(st, x.val(fr, st, in.X), in.X.Type())
+		x.setReg(st, in, x.makeInterface(st, x.val(fr, st, in.X), in.X.Type()))
 	case *ssa.TypeAssert:
-		fr.regs[in] = x.typeAssert(fr, st, in)
+		x.setReg(st, in, x.typeAssert(fr, st, in))
 	case *ssa.FieldAddr:
 		base := x.term(fr, st, in.X)
 		stT := derefType(in.X.Type())
 		l := layoutOf(stT)
 		fi := &l.Fields[in.Field]
-		fr.regs[in] = x.fieldAddr(base, fi)
+		x.setReg(st, in, x.fieldAddr(base, fi))
 	case *ssa.Field:
 		sv := x.val(fr, st, in.X)
 		l := layoutOf(in.X.Type())
@@ -96,12 +96,12 @@ func (x *FnCtx) step(fr *Frame, st *State, instr ssa.Instruction) {
 		if s, ok := sv.(StructV); ok {
 			v := x.loadField(s.H, s.Ref, fi)
 			x.assumeTypeV(st, v, fi.T)
-			fr.regs[in] = v
+			x.setReg(st, in, v)
 		} else {
-			fr.regs[in] = x.freshOf("unk_field", in.Type())
+			x.setReg(st, in, x.freshOf("unk_field", in.Type()))
 		}
 	case *ssa.IndexAddr:
-		fr.regs[in] = x.indexAddr(fr, st, in)
+		x.setReg(st, in, x.indexAddr(fr, st, in))
 	case *ssa.Index:
 		// index of array value / string
 		if isString(in.X.Type()) {
@@ -112,7 +112,7 @@ func (x *FnCtx) step(fr *Frame, st *State, instr ssa.Instruction) {
 			x.safetyOb("bounds", fr.prefix+fr.siteOrd[in], st, tb.And(x.le(x.idx(0), i), x.lt(i, n)))
 			v := tb.UF("str.at", x.sortOf(in.Type()), s, i)
 			x.assumeType(st, v, in.Type())
-			fr.regs[in] = v
+			x.setReg(st, in, v)
 			return
 		}
 		a := x.val(fr, st, in.X)
@@ -124,31 +124,31 @@ func (x *FnCtx) step(fr *Frame, st *State, instr ssa.Instruction) {
 		if t, ok := a.(*Term); ok && t.Sort.Kind == SArray {
 			v := x.sel(t, i)
 			x.assumeType(st, v, in.Type())
-			fr.regs[in] = v
+			x.setReg(st, in, v)
 		} else {
-			fr.regs[in] = x.freshOf("unk_index", in.Type())
+			x.setReg(st, in, x.freshOf("unk_index", in.Type()))
 		}
 	case *ssa.Slice:
-		fr.regs[in] = x.sliceOp(fr, st, in)
+		x.setReg(st, in, x.sliceOp(fr, st, in))
 	case *ssa.MakeSlice:
 		et := in.Type().Underlying().(*types.Slice).Elem()
 		n := x.toIntSort(x.term(fr, st, in.Len), in.Len.Type())
 		c := x.toIntSort(x.term(fr, st, in.Cap), in.Cap.Type())
 		x.safetyOb("makeslice", fr.prefix+fr.siteOrd[in], st, tb.And(x.le(x.idx(0), n), x.le(n, c)))
-		fr.regs[in] = x.makeSlice(st, et, n, c)
+		x.setReg(st, in, x.makeSlice(st, et, n, c))
 	case *ssa.Extract:
 		tv := x.val(fr, st, in.Tuple)
 		if t, ok := tv.(TupleV); ok && in.Index < len(t) {
-			fr.regs[in] = t[in.Index]
+			x.setReg(st, in, t[in.Index])
 		} else {
-			fr.regs[in] = x.freshOf("unk_extract", in.Type())
+			x.setReg(st, in, x.freshOf("unk_extract", in.Type()))
 		}
 	case *ssa.Phi:
 		// only && / || in naive form: value depends on the predecessor taken.
 		// All predecessors were merged; recover via the edge conditions recorded in phiConds.
-		fr.regs[in] = x.phi(fr, st, in)
+		x.setReg(st, in, x.phi(fr, st, in))
 	case *ssa.Call:
-		fr.regs[in] = x.call(fr, st, in, in.Common())
+		x.setReg(st, in, x.call(fr, st, in, in.Common()))
 	case *ssa.Defer:
 		fr.defers = append(fr.defers, in)
 		x.deferred(fr, st, in)
@@ -159,34 +159,34 @@ func (x *FnCtx) step(fr *Frame, st *State, instr ssa.Instruction) {
 		for _, b := range in.Bindings {
 			bs = append(bs, x.val(fr, st, b))
 		}
-		fr.regs[in] = FuncV{Fn: in.Fn.(*ssa.Function), Bindings: bs}
+		x.setReg(st, in, FuncV{Fn: in.Fn.(*ssa.Function), Bindings: bs})
 	case *ssa.MakeMap, *ssa.MakeChan:
 		r := x.alloc(st.heap, tb.IntC(1))
-		fr.regs[instr.(ssa.Value)] = r
+		x.setReg(st, instr.(ssa.Value), r)
 	case *ssa.Lookup:
 		x.abstracted("map lookup")
-		fr.regs[in] = x.freshOf("unk_lookup", in.Type())
+		x.setReg(st, in, x.freshOf("unk_lookup", in.Type()))
 	case *ssa.MapUpdate:
 		x.abstracted("map update")
 	case *ssa.Range:
 		x.abstracted("range over map/string")
-		fr.regs[in] = UnknownV{"range iterator"}
+		x.setReg(st, in, UnknownV{"range iterator"})
 	case *ssa.Next:
-		fr.regs[in] = x.freshOf("unk_next", in.Type())
+		x.setReg(st, in, x.freshOf("unk_next", in.Type()))
 	case *ssa.Go:
 		x.abstracted("go statement (ignored)")
 	case *ssa.Send:
 		x.abstracted("channel send (ignored)")
 	case *ssa.Select:
 		x.abstracted("select")
-		fr.regs[in] = x.freshOf("unk_select", in.Type())
+		x.setReg(st, in, x.freshOf("unk_select", in.Type()))
 	case *ssa.SliceToArrayPointer, *ssa.MultiConvert:
 		x.abstracted(fmt.Sprintf("%T", instr))
-		fr.regs[instr.(ssa.Value)] = x.freshOf("unk", instr.(ssa.Value).Type())
+		x.setReg(st, instr.(ssa.Value), x.freshOf("unk", instr.(ssa.Value).Type()))
 	default:
 		x.abstracted(fmt.Sprintf("instruction %T", instr))
 		if v, ok := instr.(ssa.Value); ok {
-			fr.regs[v] = x.freshOf("unk", v.Type())
+			x.setReg(st, v, x.freshOf("unk", v.Type()))
 		}
 	}
 }
